@@ -128,3 +128,17 @@ Theorem noiseless_polynomial_extrapolation_returns_the_exact_value :
 Proof. exact constant_data_fit. Qed.
 Print Assumptions noiseless_polynomial_extrapolation_returns_the_exact_value.
 (* non-vacuity: PolyFit.constant_data_fit_example *)
+
+(* exponential extrapolations f(x) = a + b exp(p(x)) (create_exp_extrapolate: a fitted; create_exp_extrapolate_with_const: a
+   given): scipy's curve_fit is a local optimiser and is not modelled; whenever the fit it returns reproduces the noiseless data
+   exactly (checked on the real fits by corr_C12_fit.py) at order + 1 distinct scale factors, the fitted function is the constant E
+   everywhere, so the value read at 0 is E *)
+Theorem noiseless_exponential_extrapolation_returns_the_exact_value :
+  forall (a b : R) (p : list R) (E : R) (order : nat) (data : list (R * R)) (ds : list R),
+  (forall xy, In xy data -> snd xy = E) ->
+  NoDup ds -> length ds = S order -> incl ds (map fst data) ->
+  (length p <= S order)%nat ->
+  (forall xy, In xy data -> a + b * exp (peval p (fst xy)) = snd xy) ->
+  forall x, a + b * exp (peval p x) = E.
+Proof. exact constant_data_exact_exp_fit. Qed.
+Print Assumptions noiseless_exponential_extrapolation_returns_the_exact_value.
